@@ -56,7 +56,8 @@ func operationUnmarshaler(raw json.RawMessage, resolvers entity.Resolvers) (dag.
 	case SetTitleOp:
 		op = &SetTitleOperation{}
 	default:
-		panic(fmt.Sprintf("unknown operation type %v", t.OperationType))
+		// this is data coming from the outside (a remote, a corrupted repo...): return an error, don't panic
+		return nil, fmt.Errorf("unknown operation type %v", t.OperationType)
 	}
 
 	err := json.Unmarshal(raw, &op)
